@@ -89,9 +89,26 @@ func (db *RockDB) VerifLocalTTLScan() (int, error) {
 	return n, err
 }
 
+// VerifRawSkipPrefix: physical keys with one of these prefixes are left out of VerifRawHash / VerifRawDump. The harness puts
+// the keys of its HyperLogLog values here: their stored form is a serialised sketch whose byte layout depends on map
+// iteration order, so equal sketches have different bytes (they are compared through PFCOUNT instead).
+var VerifRawSkipPrefix [][]byte
+
+func verifRawSkip(k []byte) bool {
+	for _, p := range VerifRawSkipPrefix {
+		if len(k) >= len(p) && string(k[:len(p)]) == string(p) {
+			return true
+		}
+	}
+	return false
+}
+
 // VerifRawHash folds every physical key/value pair of the engine (whole key space, engine order) into an FNV-1a hash
 // and returns it with the number of pairs. Used as the "nothing was written" fingerprint around failing commands.
 func (db *RockDB) VerifRawHash() (uint64, int, error) {
+	if db.hllCache != nil {
+		db.hllCache.Flush() // HyperLogLog writes sit in a write-back cache: what is compared is the flushed state
+	}
 	it, err := db.rockEng.GetIterator(engine.IteratorOpts{})
 	if err != nil {
 		return 0, 0, err
@@ -108,6 +125,9 @@ func (db *RockDB) VerifRawHash() (uint64, int, error) {
 	}
 	n := 0
 	for it.SeekToFirst(); it.Valid(); it.Next() {
+		if verifRawSkip(it.RefKey()) {
+			continue
+		}
 		mix(it.RefKey())
 		mix(it.RefValue())
 		n++
@@ -117,6 +137,9 @@ func (db *RockDB) VerifRawHash() (uint64, int, error) {
 
 // VerifRawDump lists every physical pair (for diagnostics in violation texts).
 func (db *RockDB) VerifRawDump() ([][2][]byte, error) {
+	if db.hllCache != nil {
+		db.hllCache.Flush()
+	}
 	it, err := db.rockEng.GetIterator(engine.IteratorOpts{})
 	if err != nil {
 		return nil, err
@@ -124,6 +147,9 @@ func (db *RockDB) VerifRawDump() ([][2][]byte, error) {
 	defer it.Close()
 	var out [][2][]byte
 	for it.SeekToFirst(); it.Valid(); it.Next() {
+		if verifRawSkip(it.RefKey()) {
+			continue
+		}
 		out = append(out, [2][]byte{it.Key(), it.Value()})
 	}
 	return out, nil
